@@ -146,9 +146,13 @@ fn random_content(rng: &mut Rng, tier: Tier) -> String {
     let mut s = String::new();
     for _ in 0..nlines {
         let len = match rng.below(10) { 0 => 0, 1 if tier == Tier::Thorough => 8000 + rng.below(60000), 2 => 100 + rng.below(400), _ => rng.below(24) };
+        // characters that tools like to "clean up" at the start of a line or file: byte-order mark, blanks, NUL, '#', ';'
+        if rng.chance(1, 8) { s.push_str(*rng.pick(&["\u{feff}", "\u{feff}\u{feff}", " ", "\t", "\u{0}", "#", ";", "--", "\u{200b}"])); }
         for _ in 0..len {
-            s.push_str(match rng.below(14) { 0 => "\u{e9}", 1 => "\u{1F600}", 2 => "\u{20ac}", 3 => " ", 4 => "\r", 5 => "\u{fffd}", 6 => "\u{0}", _ => "x" });
+            s.push_str(match rng.below(16) { 0 => "\u{e9}", 1 => "\u{1F600}", 2 => "\u{20ac}", 3 => " ", 4 => "\r", 5 => "\u{fffd}", 6 => "\u{0}", 7 => "\u{feff}", 8 => "\t", _ => "x" });
         }
+        // ... or at its end
+        if rng.chance(1, 10) { s.push_str(*rng.pick(&[" ", "\t", "\r\r", "\u{0}", "\\", "\u{feff}"])); }
         s.push('\n');
     }
     if rng.chance(1, 2) { s.pop(); if rng.chance(1, 2) { s.push_str("tail\u{e9}"); } }
